@@ -130,7 +130,7 @@ def tyS : Bool → Option Ty → TEnv → Expr → Res Ty
       if !eqv tc .bool then .ill else (tyS true r g body).bind fun _ => .ok .void
   | lp, r, g, .whileSet x ty e body =>
       if !wf ty then .unsup else
-      (tyS true r g e).bind fun _ => (tyS true r ((x, ty) :: g) body).bind fun _ => .ok .void
+      (tyS lp r g e).bind fun _ => (tyS true r ((x, ty) :: g) body).bind fun _ => .ok .void
   | lp, _, _, .brk => if lp then .ok .never else .ill
   | lp, _, _, .cont => if lp then .ok .never else .ill
   | lp, _, _, _ => .unsup
